@@ -370,15 +370,22 @@ def stepLverify (g : G) (i : Nat) (t : Txn) (hint : List Nat) : G :=
   else
     afterLock g i { t with tracked := t.tracked.map (verifyFlag g i t.toSet) }
 
-/-- `l2Cache.Lock / DualLock(nodesKeys)`: all or nothing; on success possibly refetch-and-merge -/
-def stepPlock (g : G) (i : Nat) (t : Txn) : G :=
+/-- `l2Cache.Lock / DualLock(nodesKeys)`: all or nothing; on success possibly refetch-and-merge; `hint` = the items
+    whose isLockOwner flag is set afterwards (only used when a refetch fails half way) -/
+def stepPlock (g : G) (i : Nat) (t : Txn) (hint : List Nat) : G :=
   if t.lockKeys.any (fun p => match g.plock p with | some j => j ≠ i | none => false) then
     setTxn g i { t with needsRefetch := true }
   else
     let g := { g with plock := fun p => if t.lockKeys.contains p then some i else g.plock p }
     if t.needsRefetch then
       match refetch g t with
-      | none => failPath g i { t with tracked := t.tracked.map fun tr => { tr with own := false } }
+      | none =>
+        -- the replay stopped half way: the pinned closure has reset every isLockOwner flag; the repaired one has
+        -- restored the flag of the items replayed before the failing one (Go map order: `hint`)
+        -- (after a rollback(false) the logged commit step was rewound to `unknown`, so the final rollback does
+        -- not call unlock() at all: `lockKeys = []` marks that path)
+        failPath g i { t with tracked := t.tracked.map fun tr =>
+          { tr with own := g.keepTracker && !t.lockKeys.isEmpty && tr.own && hint.contains tr.item } }
       | some t' => startLock g i t'
     else if t.tracked.isEmpty && t.seen.isEmpty then
       -- nothing left to commit (a second refetch replayed nothing): no node is read or written, Commit returns nil
@@ -445,7 +452,7 @@ def step (g : G) (i : Nat) (hint : List Nat) : G :=
   | .lget => stepLget g i t
   | .lset => stepLset g i t
   | .lverify => stepLverify g i t hint
-  | .plock => stepPlock g i t
+  | .plock => stepPlock g i t hint
   | .validate => stepValidate g i t
   | .check => stepCheck g i t
   | .install => stepInstall g i t
